@@ -26,7 +26,8 @@
    Operational layer : abstract object types (strict / loose / map), the operations of the code on them
                        (calcNeedsType, checkMatrix, Merge, UpdateInputs, UpdateSecrets ...), and the
                        visitor as a state machine: VisitWorkflowPre; (VisitJobPre; VisitStep*; VisitJobPost)*
-                       in ANY job order; VisitWorkflowPost.  Every action records in `obs` the type
+                       in ANY job order (jobs are visited in source order and may be written in any
+                       order); VisitWorkflowPost.  Every action records in `obs` the type
                        environment in force at the sites it checks, taken at the point of the callback
                        where the code checks them.
    Invariants        : ScopeAgrees, ShellAgrees, EntryClean, AllSitesChecked.
@@ -374,7 +375,7 @@ VisitWorkflowPre ==
   /\ phase' = "between" /\ UNCHANGED <<sh, visited, cur, k, tc>>
 VisitJobPre ==
   /\ phase = "between"
-  /\ \E j \in DOMAIN sh.jobs \ visited :        \* Go map order: any unvisited job
+  /\ \E j \in DOMAIN sh.jobs \ visited :        \* any unvisited job (source order = any textual order)
        /\ Apply(OpJobPre(rs, sh, j))
        /\ cur' = j
   /\ k' = 0 /\ phase' = "injob" /\ UNCHANGED <<sh, visited, tc>>
